@@ -381,6 +381,11 @@ def storage_bits(t):
 
 
 def gen_float(r, bits, exact=True):
+    x = _gen_float(r, bits, exact)
+    return math.nan if x != x else x      # NaN payloads / signs are not judged: always the canonical quiet NaN
+
+
+def _gen_float(r, bits, exact=True):
     c = r.random()
     f, u = FMT[bits]
     if c < 0.12:
@@ -456,7 +461,7 @@ def max_value(t):
 
 
 # ------------------------------------------------------------------------------------------------ value stream (harness I/O)
-def vs_write(t, v, out, raw_union_tag=None, raw_counts=None):
+def vs_write(t, v, out, clip=True):
     """Serialises a value into the harness' value stream: 8 bytes per scalar (little endian; floats as raw IEEE bits of the
     storage type: binary32 for float16/float32 fields, binary64 for float64), u64 count before variable arrays, u64 tag before a
     union's selected member."""
@@ -475,19 +480,26 @@ def vs_write(t, v, out, raw_union_tag=None, raw_counts=None):
             out += struct.pack("<d", v)
     elif isinstance(t, pydsdl.ArrayType):
         if isinstance(t, pydsdl.VariableLengthArrayType):
+            # an over-long list is a hostile value: the C loader stores the count and only `capacity` elements (clip), the C++
+            # loader really builds the longer container (no clip)
             out += struct.pack("<Q", len(v))
+            if clip:
+                v = v[:t.capacity]
         for e in v:
-            vs_write(t.element_type, e, out)
+            vs_write(t.element_type, e, out, clip)
     else:
         it = inner(t)
         if isinstance(it, pydsdl.UnionType):
             (k, x), = v.items()
+            if k == "__raw_tag__":          # hostile: an invalid tag and no member (C only)
+                out += struct.pack("<Q", x)
+                return out
             idx = next(i for i, f in enumerate(it.fields) if f.name == k)
             out += struct.pack("<Q", idx)
-            vs_write(it.fields[idx].data_type, x, out)
+            vs_write(it.fields[idx].data_type, x, out, clip)
         else:
             for f in it.fields_except_padding:
-                vs_write(f.data_type, v[f.name], out)
+                vs_write(f.data_type, v[f.name], out, clip)
     return out
 
 
